@@ -10,52 +10,68 @@
 (***************************************************************************)
 EXTENDS GateRules
 
-VARIABLES gen, tree,       \* the scenario
+VARIABLES registered,      \* plug-ins whose checks this manager's verifier holds (survives between calls)
+          gen, tree,       \* the scenario of the call in progress
           fs0, fs,         \* output directory before / now
           pc,              \* "start" | "verified" | "generated" | "returned"
           verdict,         \* "" | "Ok" | "Err"
           files,           \* sequence of [path, contents] returned by the plug-in
           written,         \* how many of them have been written
           ret              \* "" | "Ok" | "Err" | "Raised"
-gvars == <<gen, tree, fs0, fs, pc, verdict, files, written, ret>>
+gvars == <<registered, gen, tree, fs0, fs, pc, verdict, files, written, ret>>
 
 GInit(g, t, dir) ==
+    /\ registered = {}
     /\ gen = g /\ tree = t /\ fs0 = dir /\ fs = dir
     /\ pc = "start" /\ verdict = "" /\ files = <<>> /\ written = 0 /\ ret = ""
 
-Verify ==
+(* generator.register_checks(self.verifier): the verifier accumulates *)
+Register ==
     /\ pc = "start"
-    /\ verdict' = IF WellFormed(tree, CSetOf(gen)) THEN "Ok" ELSE "Err"
+    /\ registered' = registered \cup {gen}
+    /\ pc' = "registered"
+    /\ UNCHANGED <<gen, tree, fs0, fs, verdict, files, written, ret>>
+Verify ==
+    /\ pc = "registered"
+    /\ verdict' = IF WellFormedAcc(tree, registered) THEN "Ok" ELSE "Err"
     /\ pc' = "verified"
-    /\ UNCHANGED <<gen, tree, fs0, fs, files, written, ret>>
+    /\ UNCHANGED <<registered, gen, tree, fs0, fs, files, written, ret>>
+(* the same manager is used again *)
+NewCall(g, t, dir) ==
+    /\ pc = "returned"
+    /\ gen' = g /\ tree' = t /\ fs0' = dir /\ fs' = dir
+    /\ pc' = "start" /\ verdict' = "" /\ files' = <<>> /\ written' = 0 /\ ret' = ""
+    /\ UNCHANGED registered
 ReturnErr ==
     /\ pc = "verified" /\ verdict = "Err"
     /\ ret' = "Err" /\ pc' = "returned"
-    /\ UNCHANGED <<gen, tree, fs0, fs, verdict, files, written>>
+    /\ UNCHANGED <<registered, gen, tree, fs0, fs, verdict, files, written>>
 (* the plug-in returns a list of files; the C plug-in first clears old .c/.h files *)
 PluginGenerate(fl, cleared) ==
     /\ pc = "verified" /\ verdict = "Ok" /\ PluginCan(tree, gen)
     /\ files' = fl /\ pc' = "generated"
     /\ fs' = [p \in DOMAIN fs \ cleared |-> fs[p]]
-    /\ UNCHANGED <<gen, tree, fs0, verdict, written, ret>>
+    /\ UNCHANGED <<registered, gen, tree, fs0, verdict, written, ret>>
 PluginRefuse ==
     /\ pc = "verified" /\ verdict = "Ok" /\ ~PluginCan(tree, gen)
     /\ ret' = "Raised" /\ pc' = "returned"
-    /\ UNCHANGED <<gen, tree, fs0, fs, verdict, files, written>>
+    /\ UNCHANGED <<registered, gen, tree, fs0, fs, verdict, files, written>>
 WriteFile ==
     /\ pc = "generated" /\ written < Len(files)
     /\ LET f == files[written + 1] IN
        fs' = [p \in DOMAIN fs \cup {f.path} |-> IF p = f.path THEN f.contents ELSE fs[p]]
     /\ written' = written + 1
-    /\ UNCHANGED <<gen, tree, fs0, pc, verdict, files, ret>>
+    /\ UNCHANGED <<registered, gen, tree, fs0, pc, verdict, files, ret>>
 ReturnOk ==
     /\ pc = "generated" /\ written = Len(files)
     /\ ret' = "Ok" /\ pc' = "returned"
-    /\ UNCHANGED <<gen, tree, fs0, fs, verdict, files, written>>
+    /\ UNCHANGED <<registered, gen, tree, fs0, fs, verdict, files, written>>
 
 (* ----------------------------------------------------------- properties *)
 RejectWritesNothing == ret \in {"Err", "Raised"} => Untouched(fs0, fs)
 AcceptWritesExactly == ret = "Ok" => WroteExactly(fs0, fs, files)
-OnlyAfterOk == [][fs' # fs => verdict = "Ok"]_gvars
-ErrIffIllFormed == ret # "" => ((ret = "Err") <=> ~WellFormed(tree, CSetOf(gen)))
+OnlyAfterOk == [][(fs' # fs /\ pc # "returned") => verdict = "Ok"]_gvars     \* (a new call starts from its own directory)
+ErrIffIllFormed == ret # "" => ((ret = "Err") <=> ~WellFormedAcc(tree, registered))
+(* a plug-in's own checks are always in force for its own call *)
+OwnChecksInForce == pc \in {"registered", "verified", "generated", "returned"} => gen \in registered
 =============================================================================
